@@ -233,6 +233,10 @@ class Controller:
                 component = data['component']()  # type: ComponentState
             except Exception:
                 continue
+            if component is None or component.engine is None:
+                # VV: Components of the stages before the one a restart begins with have no engine, there is nothing
+                # to wait for (and ComponentState.combinedStateUpdates cannot merge the updates of a missing engine)
+                continue
             observables.append(component.combinedStateUpdates)
 
         if not observables:
